@@ -56,6 +56,11 @@ func (l capLogger) With(...interface{}) log.Logger { return l }
 
 const nstAddrHex = "0xeeeeeeeeeeeeeeeeeeeeeeeeeeeeeeeeeeeeeeee"
 
+type atomSlash struct {
+	op sdk.AccAddress
+	id string
+}
+
 type atomH struct {
 	env     *Env
 	c       *Chain
@@ -68,8 +73,9 @@ type atomH struct {
 	seen    map[string]bool
 	slashN  int
 	lzNonce uint64
-	random  bool     // in the random stream known triggers are steered away from
-	dels    [][3]int // (staker index, asset kind, operator index) of accepted delegations
+	random  bool        // in the random stream known triggers are steered away from
+	slashOK []atomSlash // accepted slashes (operator, id) of this history
+	dels    [][3]int    // (staker index, asset kind, operator index) of accepted delegations
 }
 
 func (h *atomH) ctxFix() { h.c.Ctx = h.c.Ctx.WithLogger(capLogger{last: &h.lastErr}) }
@@ -602,23 +608,36 @@ func (h *atomH) step() {
 		} else if from != common.HexToAddress(c.AVSAddr) { // opting a validator out of the chain AVS is C07's business
 			h.evm("avs.deregisterOperatorFromAVS", from, xbAvsAddr, h.abis.avs, "deregisterOperatorFromAVS", op)
 		}
-	case 13: // keeper: Slash with inputs rejected before anything is written (the late rejections are F-04a)
+	case 13: // keeper: Slash refused early (parameter checks) or late (duplicate id / contract / proportion: F-04a, fixed by b01075b — both must leave no trace)
 		op := c.Operators[r.Intn(len(c.Operators))]
 		h.slashN++
 		p := &operatortypes.SlashInputInfo{IsDogFood: true, Power: int64(1 + r.Intn(50)), SlashType: 1, Operator: op.Acc, AVSAddr: c.AVSAddr,
 			SlashID: fmt.Sprintf("rnd-%d", h.slashN), SlashEventHeight: c.Ctx.BlockHeight() - int64(r.Intn(2)), SlashProportion: sdkmath.LegacyNewDecWithPrec(int64(1+r.Intn(30)), 2)}
 		if bad || r.Chance(1, 2) {
-			switch r.Intn(3) {
+			switch r.Intn(6) {
 			case 0:
 				p.SlashProportion = sdkmath.LegacyNewDec(-1)
 			case 1:
 				p.SlashEventHeight = c.Ctx.BlockHeight() + 5
-			default:
+			case 2:
 				p.Power = 0
+			case 3: // replay of an id accepted before in this history
+				if len(h.slashOK) > 0 {
+					prev := h.slashOK[r.Intn(len(h.slashOK))]
+					p.SlashID, p.Operator = prev.id, prev.op
+				} else {
+					p.Power = -1
+				}
+			case 4:
+				p.SlashContract = "0x00000000000000000000000000000000000000bb"
+			default:
+				p.SlashProportion = sdkmath.LegacyNewDecWithPrec(int64(101+r.Intn(200)), 2)
 			}
 		}
-		h.keeper("operator.Slash", fmt.Sprintf("keeper Slash op=%s id=%s prop=%s h=%d pow=%d", op.Acc, p.SlashID, p.SlashProportion, p.SlashEventHeight, p.Power),
-			func(ctx sdk.Context) error { return c.App.OperatorKeeper.Slash(ctx, p) })
+		if h.keeper("operator.Slash", fmt.Sprintf("keeper Slash op=%s id=%s prop=%s h=%d pow=%d", op.Acc, p.SlashID, p.SlashProportion, p.SlashEventHeight, p.Power),
+			func(ctx sdk.Context) error { return c.App.OperatorKeeper.Slash(ctx, p) }) == "ok" {
+			h.slashOK = append(h.slashOK, atomSlash{op: p.Operator, id: p.SlashID})
+		}
 	case 14: // keeper: UpdateNSTByBalanceChange with malformed raw data (rejected before the loop)
 		// (a run of the per-staker loop that fails mid-way is F-09d, exercised by the directed scenario)
 		raw := make([]byte, r.Intn(31))
@@ -711,7 +730,8 @@ func (h *atomH) directed() {
 	// F-09b: registerToken with 19 decimals: oracle token + feeder registered, then the asset is refused.
 	h.evm("assets.registerToken", gw, xbAssetsAddr, h.abis.assets, "registerToken", uint32(c.LzID),
 		pad32(hexToBytes("0x2222222222222222222222222222222222222222")), uint8(19), "BAD", "meta", "BADTOKEN,badchain,8")
-	// F-04a: the same slash id twice / wrong slash contract / proportion > 1
+	// F-04a (fixed by b01075b, kept as a regression scenario): the same slash id twice / wrong slash
+	// contract / proportion > 1 are refused after SlashAssets ran — and must now leave no trace
 	op := c.Operators[0]
 	mk := func(id string, prop sdkmath.LegacyDec, contract string) *operatortypes.SlashInputInfo {
 		return &operatortypes.SlashInputInfo{IsDogFood: true, Power: 10, SlashType: 1, Operator: op.Acc, AVSAddr: c.AVSAddr, SlashContract: contract,
@@ -760,7 +780,7 @@ func (h *atomH) boot(seed uint64) {
 	h.c.EndAndBegin(time.Second)
 	h.ctxFix()
 	h.abis = xbLoadABIs(h.c)
-	h.stakers, h.others, h.dels = nil, nil, nil
+	h.stakers, h.others, h.dels, h.slashOK = nil, nil, nil, nil
 	for i := 0; i < 3; i++ {
 		h.stakers = append(h.stakers, NewActor(seed, "staker", i))
 	}
